@@ -207,3 +207,32 @@ Proof.
   split; [vm_compute; reflexivity|]. split; [vm_compute; reflexivity|].
   eexists _, _. split; [vm_compute; reflexivity|]. split; [vm_compute; reflexivity|]. discriminate.
 Qed.
+
+(** ** (d) the profile channel (Model/ProfileJson.v, Model/RunProfile.v; proofs in
+    Proofs/ProfileJsonProofs.v).
+
+    [AbstractProfileSerializer] has no buffer of its own: the string sink is
+    [json.dumps(obj, indent=..)] (the chunks of the encoder joined), the file
+    sink [json.dump(obj, stream, indent=..)] (the same chunks written in order
+    into a file opened with mode [c_profile_json_file_mode] = "w", i.e.
+    truncated first).  Both calls carry the same arguments -- read from the
+    source into Gen/ConstsProfile.v; the proofs below compute with them -- so
+    for EVERY profile object the file holds byte for byte the returned string
+    (every byte of it is ASCII: [ensure_ascii]). *)
+From Shexer Require Import Gen.ConstsProfile Model.ProfileJson Model.RunProfile Proofs.ProfileJsonProofs.
+
+Theorem C18_profile_file_eq_string : forall inverse P,
+  profile_text PFile inverse P = profile_text PString inverse P.
+Proof. exact profile_sinks_agree. Qed.
+Print Assumptions C18_profile_file_eq_string.
+
+Theorem C18_profile_run_file_eq_string : forall c g,
+  run_profile_json PFile c g = run_profile_json PString c g.
+Proof. exact run_sinks_agree. Qed.
+Print Assumptions C18_profile_run_file_eq_string.
+
+(** the arguments the two sinks are called with *)
+Example C18_profile_sink_arguments :
+  sink_cfg PFile = sink_cfg PString /\ c_profile_json_file_mode = Str "w" /\
+  c_profile_json_str_fn = Str "dumps" /\ c_profile_json_file_fn = Str "dump".
+Proof. repeat split; reflexivity. Qed.
